@@ -41,6 +41,8 @@ KEYS = tuple(FLOORS["quick"].keys()) + ("table_reconfigurations", "stray_flow_ca
 # floors for the situations added with the later rounds of seeded changes (evidence that they were really exercised)
 FLOORS["quick"].update({'stray_packets_refused': 400})
 FLOORS["thorough"].update({'stray_packets_refused': 2000})
+FLOORS["quick"].update({'port_limit_reassignments': 40, 'random_demux_packets': 8000})
+FLOORS["thorough"].update({'port_limit_reassignments': 200, 'random_demux_packets': 40000})
 SINGLE = ["Port", "Wire", "TokenBucket", "TwoRateTokenBucket", "SP", "WFQ", "VC", "DRR", "RR", "WRR", "Port", "Wire"]
 FAN = ["FlowDemux", "FIBDemux", "SimplePacketSwitch", "FairPacketSwitch"]
 
